@@ -93,7 +93,7 @@ PROPS = {
     "C05": {
         "level": "other",
         "rules": [_n1, N.sign_loss_casts, N.alloc_taint, N.loops_progress, E.decode_errors, P.sources_agree, R.coordinates,
-                  T.header_reader, U.inventory, U.transmutes, U.uninit_apis, D.validate, D.macrolint,
+                  B.varints, T.header_reader, U.inventory, U.transmutes, U.uninit_apis, D.validate, D.macrolint,
                   ST.make(["N1/panic", "N1/index", "N3", "N4", "E1", "U2", "U3"])],
         "thorough": [TH.feature_matrix_totality],
         "explanation": "Static totality argument for the decode side over the resolved MIR of desert_core: every may-panic site "
@@ -236,7 +236,8 @@ PROPS = {
     },
     "C17": {
         "level": "other",
-        "rules": [_n2, N.narrowing_casts, E.encode_errors, E.error_sites, G.char_codec, S.fresh_context, T.header_writer, D.validate],
+        "rules": [_n2, N.narrowing_casts, E.encode_errors, E.error_sites, G.char_codec, B.varints, S.fresh_context,
+                  T.header_writer, D.validate],
         "explanation": "Every may-panic site reachable from the encode entry points is discharged (N2; D6 certifies the new_v0 "
                        "assertion, R2 the buffer unwraps), lengths are narrowed with try_into()? -> LengthTooLarge (N6), errors "
                        "propagate (E2) and are constructed where documented: UnsupportedCharacter exactly outside the 16-bit "
